@@ -478,6 +478,24 @@ func propC12(t *rapid.T) {
 			// the same configuration (the caller's maps and option values) served an earlier read of the same document
 			_ = hx.Safely(func() { _ = qframe.ReadCSV(bytes.NewReader(data), fns...) })
 		}
+		if rapid.IntRange(0, 7).Draw(t, "rejectedbefore") == 0 {
+			// an earlier read in the same process was rejected half-way (a ragged line after a row longer than the initial
+			// buffer, more rows behind it) or broke off with a reader error: nothing of it belongs to the next document
+			long := strings.Repeat("x", rapid.SampledFrom([]int{900, 1100, 2500, 5000}).Draw(t, "longcell"))
+			bad := "a,b\n" + long + ",1\nragged\n4,5\n6,7\n"
+			if rapid.Bool().Draw(t, "longsecond") {
+				bad = "a,b\n1," + long + "\n3\n4,5\n6,7\n"
+			}
+			brokenOff := rapid.Bool().Draw(t, "brokenoff")
+			_ = hx.Safely(func() {
+				if brokenOff {
+					_ = qframe.ReadCSV(hx.NewChunkReader([]byte("a,b\n"+long+",1\n2,3\n4,5\n"), []int{700, 700, 1}, false), csv.Delimiter(';'))
+				}
+				if r := qframe.ReadCSV(strings.NewReader(bad)); r.Err == nil {
+					panic("the ragged document was accepted")
+				}
+			})
+		}
 		if perr := hx.Safely(func() { qf = qframe.ReadCSV(rd, fns...) }); perr != nil {
 			t.Fatalf("ReadCSV panicked: %v\n%s", perr, desc())
 		}
